@@ -296,7 +296,8 @@ def run_property(pid, tier, modname, cases, opts=None, level="model_checking", a
                      unsat=int(stats.get('unsat', 0)), sat=int(stats.get('sat', 0)),
                      unknown=int(stats.get('unknown', 0))),
         solver_seconds=round(float(stats.get('solver_s', 0.0)), 2),
-        queries_needing_over_a_quarter_of_their_timeout=int(stats.get('slow_queries', 0)),
+        assertion_queries_needing_over_a_quarter_of_their_timeout=int(stats.get('slow_queries', 0)),
+        feasibility_queries_needing_over_a_quarter_of_their_timeout=int(stats.get('slow_feas_queries', 0)),
         forks=int(stats.get('forks', 0)),
         zero_tests_on_solver_outputs_not_forked=int(stats.get('zero_test_kept', 0)),
         output_comparison_branches_cut=int(stats.get('output_branches_cut', 0)),
